@@ -5,11 +5,13 @@ use serde_json::{json, Value};
 use std::io::{BufRead, Read};
 
 mod time_k;
+mod sm;
 
 fn dispatch(req: &Value) -> Value {
     let kernel = req["kernel"].as_str().unwrap_or("");
     let r = std::panic::catch_unwind(|| match kernel {
         k if k.starts_with("time.") => time_k::run(k, req),
+        k if k.starts_with("sm.") => sm::run(k, req),
         _ => json!({"error": format!("unknown kernel {}", kernel)}),
     });
     match r {
